@@ -32,8 +32,7 @@ loc_T(void)
 {
 	int p = lex_skip_step(g_L, 0);
 
-	
-	
+	if (p > 0) p = lex_skip_step(g_L, p);
 	return p;
 }
 #define T        g_T
